@@ -3,7 +3,7 @@ from __future__ import annotations
 import asyncio
 from functools import partial
 from types import TracebackType
-from typing import Any, Awaitable, Callable, Optional
+from typing import Any, Awaitable, Callable, Optional, Set
 
 from ..config import Config
 from ..typing import AppWrapper, ASGIReceiveCallable, ASGIReceiveEvent, ASGISendEvent, Scope
@@ -37,6 +37,7 @@ class TaskGroup:
     def __init__(self, loop: asyncio.AbstractEventLoop) -> None:
         self._loop = loop
         self._task_group = AsyncioTaskGroup()
+        self._tasks: Set[asyncio.Task] = set()
 
     async def spawn_app(
         self,
@@ -105,7 +106,16 @@ class TaskGroup:
         return _put
 
     def spawn(self, func: Callable, *args: Any) -> None:
-        self._task_group.create_task(func(*args))
+        task = self._task_group.create_task(func(*args))
+        self._tasks.add(task)
+        task.add_done_callback(self._tasks.discard)
+
+    async def wait(self) -> None:
+        # Wait for the spawned tasks to finish as exiting the context
+        # would, but such that a cancellation is raised here (before
+        # the tasks are cancelled).
+        while len(self._tasks) > 0:
+            await asyncio.wait(self._tasks)
 
     async def __aenter__(self) -> "TaskGroup":
         await self._task_group.__aenter__()
